@@ -130,7 +130,8 @@ func init() {
 			if tier == "quick" {
 				return []*explore.Scenario{c09scenario(3, 2, false), c09scenario(2, 2, true)}
 			}
-			return []*explore.Scenario{c09scenario(4, 2, false), c09scenario(3, 3, false), c09scenario(3, 2, true)}
+			// bound -1 = unbounded: the happens-before state cache closes the whole interleaving space
+			return []*explore.Scenario{c09scenario(4, 2, false), c09scenario(3, -1, false), c09scenario(3, 2, true), c09scenario(2, -1, true)}
 		},
 		Rule: "all scripts of Set(zero|past|+5ms|+10ms|+20ms) of the stated length (optionally separated by 0/7/12 ms sleeps) x every placement, within the deviation bound, of timer expiries and of the separately scheduled timer callbacks (so up to 3 dispatched-but-not-run callbacks are outstanding); Done/Err/Deadline observed after every Set, before the next one and at quiescence 100 ms later",
 		Assumptions: []string{"the runtime timer is modelled: expiry dispatches the callback as a new thread whose first lock acquisition is a scheduling point; Stop reports whether the expiry had not been dispatched yet",
